@@ -1,24 +1,45 @@
 """C11 - value comparison is a total preorder and every consumer agrees with it."""
 
 import calendar
+import collections
+import copy
 import datetime
+import enum
 import functools
 import hashlib
 import json
 import os
 import re
+import subprocess
+import sys
 import time
 from fractions import Fraction
+
+try:
+    import zoneinfo
+except ImportError:  # pragma: no cover
+    zoneinfo = None
 
 import fw
 
 ID = 'C11'
 LEVEL = 'proof'
-LEAN_TARGETS = ['BareProofs.C11']
+LEAN_TARGETS = ['BareProofs.C11', 'BareProofs.C11Bridge', 'BareProofs.C11BridgeHostLib', 'BareProofs.C11BridgeLib']
 DRIVER = 'drv_c11'
 DRIVER_ROOT = 'Drv.C11'
 GEN = []
 THEOREMS = [
+    # bridge to the execution model (BareProofs/C11Bridge*.lean): the heap comparison of the machine hosts IS Compare.valueCompare on reified values
+    'C11Bridge.reifyF_complete', 'C11Bridge.reify_arr', 'C11Bridge.reify_obj', 'C11Bridge.reify_scalar',
+    'C11Bridge.reify_typeName', 'C11Bridge.reify_none_iff', 'C11Bridge.compare_bridge', 'C11Bridge.valueCompare_bridge',
+    "C11Bridge.compare_bridge'", 'C11Bridge.not_reifiable_of_compare_none', 'C11Bridge.machine_cmp_range', 'C11Bridge.machine_cmp_refl',
+    'C11Bridge.machine_cmp_antisymm', 'C11Bridge.machine_cmp_total', 'C11Bridge.machine_cmp_trans', 'C11Bridge.machine_alias_equal',
+    'C11Bridge.machine_equal_congr', 'C11Bridge.machine_null_least', 'C11Bridge.machine_cross_type_by_name', 'C11Bridge.machine_relop',
+    'C11Bridge.machine_relops_sign', 'C11Bridge.machine_relops_identities', 'C11Bridge.machine_eval_relop', 'C11Bridge.machine_systemCompare',
+    'C11Bridge.machine_call_systemCompare', 'C11Bridge.indexOfVal_bridge', 'C11Bridge.machine_indexOf', 'C11Bridge.machine_indexOf_first',
+    'C11Bridge.hostLib_compare_bridge', 'C11Bridge.hostLib_relop', 'C11Bridge.hostLib_relops_sign', 'C11Bridge.hostLib_eval_relop',
+    'C11Bridge.hostLib_systemCompare', 'C11Bridge.hostLib_call_systemCompare', 'C11Bridge.vcmp_bridge', 'C11Bridge.lib_compare_bridge',
+    'C11Bridge.lib_compare_agrees', 'C11Bridge.hostLib_indexOf', 'C11Bridge.hostLib_indexOf_agrees', 'C11Bridge.hostLib_lastIndexOf',
     'C11.cmp_range', 'C11.cmp_refl', 'C11.cmp_antisymm', 'C11.cmp_trans', 'C11.cmp_trans_strict', 'C11.cmp_total',
     'C11.null_least', 'C11.cross_type_by_name', 'C11.cross_type_by_rank', 'C11.num_cmp', 'C11.int_float_irrelevant',
     'C11.arr_elementwise', 'C11.arr_skip_equal_prefix', 'C11.obj_elementwise', 'C11.str_cmp_zero_iff',
@@ -63,7 +84,19 @@ def _f1(args, options):  # pylint: disable=unused-argument
     return 1
 
 
-FUNCS = [_f0, _f1, lambda args, options: None, len, functools.partial(_f0, None), print]
+class HCallable:
+    """A host object that is callable (a BareScript value of type function)."""
+
+    def __call__(self, args, options=None, *rest, **kwargs):  # pylint: disable=keyword-arg-before-vararg
+        return None
+
+    def method(self, args, options):  # pylint: disable=unused-argument
+        return None
+
+
+# appended entries only (the index of a function is its name on the wire and in replay files)
+FUNCS = [_f0, _f1, lambda args, options: None, len, functools.partial(_f0, None), print,
+         HCallable(), HCallable().method, HCallable, dict, (lambda args, options=None, *rest, **kw: 0)]
 REGEXES = [re.compile('a'), re.compile('b', re.I), re.compile('')]
 UTC = datetime.timezone.utc
 EPOCH_AWARE = datetime.datetime(1970, 1, 1, tzinfo=UTC)
@@ -73,6 +106,116 @@ US = datetime.timedelta(microseconds=1)
 
 def tz(minutes):
     return datetime.timezone(datetime.timedelta(minutes=minutes))
+
+
+# ---------------------------------------------------------------------------------------------------------------------
+# Host-boundary values: what a host application can legally put into globals / pass as arguments. They are BareScript
+# values of the base type (value_type is isinstance-based), so the property speaks about them like about the base value.
+# ---------------------------------------------------------------------------------------------------------------------
+
+class HInt(int):
+    pass
+
+
+class HFloat(float):
+    pass
+
+
+class HStr(str):
+    pass
+
+
+class HList(list):
+    pass
+
+
+class HDict(dict):
+    pass
+
+
+class HDate(datetime.date):
+    pass
+
+
+class HDateTime(datetime.datetime):
+    pass
+
+
+class Color(enum.IntEnum):
+    ZERO = 0
+    RED = 1
+    GREEN = 2
+    BIG = 2 ** 53 + 1
+
+
+class Perm(enum.IntFlag):
+    X = 1
+    W = 2
+    R = 4
+
+
+class Name(str, enum.Enum):
+    EMPTY = ''
+    A = 'a'
+    B = 'b'
+    HIGH = '\U00010000'
+
+
+ENUMS = {f'{c.__name__}.{m.name}': m for c in (Color, Perm, Name) for m in c}
+HOST_WRAP = {
+    'HInt': HInt, 'HFloat': HFloat, 'HStr': HStr, 'HList': HList, 'HDict': HDict,
+    'OrderedDict': collections.OrderedDict, 'defaultdict': lambda d: collections.defaultdict(list, d), 'Counter': collections.Counter,
+    'HDate': lambda d: HDate(d.year, d.month, d.day),
+    'HDateTime': lambda d: HDateTime(d.year, d.month, d.day, d.hour, d.minute, d.second, d.microsecond, tzinfo=d.tzinfo, fold=d.fold),
+}
+HOST_TYPES = {HInt: 'HInt', HFloat: 'HFloat', HStr: 'HStr', HList: 'HList', HDict: 'HDict', collections.OrderedDict: 'OrderedDict',
+              collections.defaultdict: 'defaultdict', collections.Counter: 'Counter', HDate: 'HDate', HDateTime: 'HDateTime'}
+
+
+def host_kind(v):
+    if isinstance(v, enum.Enum):
+        return 'enum'
+    return HOST_TYPES.get(type(v))
+
+
+def shallow_base(v):
+    """The base-type value of a host subclass instance (children untouched)."""
+    if isinstance(v, str):
+        return str.__str__(v)
+    if isinstance(v, int):
+        return int(v)
+    if isinstance(v, float):
+        return float(v)
+    if isinstance(v, datetime.datetime):
+        return datetime.datetime(v.year, v.month, v.day, v.hour, v.minute, v.second, v.microsecond, tzinfo=v.tzinfo, fold=v.fold)
+    if isinstance(v, datetime.date):
+        return datetime.date(v.year, v.month, v.day)
+    if isinstance(v, dict):
+        return dict(v.items())
+    if isinstance(v, list):
+        return list(v)
+    return v
+
+
+def to_base(v):
+    """The same value with every host subclass instance replaced by the plain base-type value (recursively)."""
+    if host_kind(v) is not None:
+        v = shallow_base(v)
+    if isinstance(v, list):
+        return [to_base(x) for x in v]
+    if isinstance(v, dict):
+        return {str.__str__(k): to_base(x) for k, x in v.items()}
+    return v
+
+
+def has_host(v):
+    if host_kind(v) is not None or (isinstance(v, datetime.datetime) and zoneinfo is not None and isinstance(v.tzinfo, zoneinfo.ZoneInfo)):
+        return True
+    if isinstance(v, list):
+        return any(has_host(x) for x in v)
+    if isinstance(v, dict):
+        return any(has_host(k) or has_host(x) for k, x in v.items())
+    return False
 
 
 # ---------------------------------------------------------------------------------------------------------------------
@@ -95,7 +238,7 @@ def enc(v):
     if v is None:
         return {'t': 'null'}
     if isinstance(v, str):
-        return {'t': 'str', 'v': v}
+        return {'t': 'str', 'v': str.__str__(v)}
     if isinstance(v, bool):
         return {'t': 'bool', 'v': v}
     if isinstance(v, (int, float)):
@@ -104,17 +247,25 @@ def enc(v):
     if isinstance(v, datetime.date):
         return {'t': 'dt', 'v': norm_us(v)}
     if isinstance(v, dict):
-        return {'t': 'obj', 'v': [[k, enc(x)] for k, x in v.items()]}
+        return {'t': 'obj', 'v': [[str.__str__(k), enc(x)] for k, x in v.items()]}
     if isinstance(v, list):
         return {'t': 'arr', 'v': [enc(x) for x in v]}
     if callable(v):
-        return {'t': 'fn', 'v': next(i for i, f in enumerate(FUNCS) if f is v)}
+        return {'t': 'fn', 'v': next(i for i, f in enumerate(FUNCS) if f is v or f == v)}
     if isinstance(v, type(REGEXES[0])):
         return {'t': 'regex', 'v': next(i for i, f in enumerate(REGEXES) if f is v)}
     raise ValueError(f'not a BareScript value: {v!r}')
 
 
 def spec(v):
+    hk = host_kind(v)
+    if hk == 'enum':
+        return {'enum': f'{type(v).__name__}.{v.name}'}
+    if hk is not None:
+        b = spec(shallow_base(v))
+        b = dict(b) if isinstance(b, dict) else {'str': b}
+        b['host'] = hk
+        return b
     if v is None:
         return None
     if isinstance(v, str):
@@ -127,33 +278,44 @@ def spec(v):
         return {'float': v.hex()}
     if isinstance(v, datetime.datetime):
         off = None if v.tzinfo is None else v.utcoffset() // datetime.timedelta(seconds=1)
-        return {'datetime': [v.year, v.month, v.day, v.hour, v.minute, v.second, v.microsecond], 'offset_s': off, 'fold': v.fold}
+        out = {'datetime': [v.year, v.month, v.day, v.hour, v.minute, v.second, v.microsecond], 'offset_s': off, 'fold': v.fold}
+        if zoneinfo is not None and isinstance(v.tzinfo, zoneinfo.ZoneInfo):
+            out['zone'] = v.tzinfo.key
+        return out
     if isinstance(v, datetime.date):
         return {'date': [v.year, v.month, v.day]}
     if isinstance(v, dict):
-        return {'dict': [[k, spec(x)] for k, x in v.items()]}
+        return {'dict': [[spec(k), spec(x)] for k, x in v.items()]}
     if isinstance(v, list):
         return {'list': [spec(x) for x in v]}
     if callable(v):
-        return {'fn': next(i for i, f in enumerate(FUNCS) if f is v)}
+        return {'fn': next(i for i, f in enumerate(FUNCS) if f is v or f == v)}
     return {'regex': next(i for i, f in enumerate(REGEXES) if f is v)}
 
 
 def unspec(s):
     if s is None or isinstance(s, (str, bool)):
         return s
-    (k, v), = [(k, v) for k, v in s.items() if k not in ('offset_s', 'fold')]
+    if 'host' in s:
+        return HOST_WRAP[s['host']](unspec({k: v for k, v in s.items() if k != 'host'}))
+    (k, v), = [(k, v) for k, v in s.items() if k not in ('offset_s', 'fold', 'zone')]
+    if k == 'enum':
+        return ENUMS[v]
+    if k == 'str':
+        return v
     if k == 'int':
         return int(v)
     if k == 'float':
         return float.fromhex(v)
     if k == 'datetime':
         tzinfo = None if s.get('offset_s') is None else datetime.timezone(datetime.timedelta(seconds=s['offset_s']))
+        if s.get('zone') and zoneinfo is not None:
+            tzinfo = zoneinfo.ZoneInfo(s['zone'])
         return datetime.datetime(*v, tzinfo=tzinfo, fold=s.get('fold', 0))
     if k == 'date':
         return datetime.date(*v)
     if k == 'dict':
-        return {kk: unspec(x) for kk, x in v}
+        return {unspec(kk): unspec(x) for kk, x in v}
     if k == 'list':
         return [unspec(x) for x in v]
     if k == 'fn':
@@ -605,7 +767,7 @@ ORACLES = {
 def run_oracle(ctx, im, name, *args):
     """Run one oracle; on failure record a witness whose input can be replayed. -> True if the property held."""
     try:
-        res = ORACLES[name](im, *[a[1] if isinstance(a, tuple) and a and a[0] == 'raw' else a for a in args])
+        res = ORACLES[name](im, *[a[1] if isinstance(a, tuple) and a and a[0] in ('raw', 'sorts') else a for a in args])
     except Exception as exc:  # pylint: disable=broad-except
         res = ('no exception', 'EXC:' + type(exc).__name__ + ': ' + str(exc)[:200])
     if res is None:
@@ -618,10 +780,14 @@ def spec_arg(a):
     """top-level oracle arguments: values, lists of values, sort descriptions, indices"""
     if isinstance(a, tuple) and a and a[0] == 'raw':
         return {'raw': a[1]}
+    if isinstance(a, tuple) and a and a[0] == 'sorts':
+        return {'sorts': [[spec(s[0])] + list(s[1:]) for s in a[1]]}
     return {'value': spec(a)}
 
 
 def unspec_arg(a):
+    if 'sorts' in a:
+        return [[unspec(s[0])] + list(s[1:]) for s in a['sorts']]
     return a['raw'] if 'raw' in a else unspec(a['value'])
 
 
@@ -910,6 +1076,15 @@ def streams(ctx):
         run_oracle(ctx, im, 'arrayIndexOf', xs, needle, ('raw', index))
         run_oracle(ctx, im, 'arrayLastIndexOf', xs, needle, ('raw', index))
 
+    # ---- tie keys, host-boundary values, histories (all after the stateless streams: a history never perturbs them) -------------------
+    t0 = ctx.elapsed()
+    tie_stream(ctx, im, pool, impl)
+    t1 = ctx.elapsed()
+    host_stream(ctx, im, pool)
+    t2 = ctx.elapsed()
+    history_stream(ctx, im)
+    ctx.notes.append(f'wall: stateless streams up to {t0:.0f}s, tiekeys {t1 - t0:.1f}s, host {t2 - t1:.1f}s, history {ctx.elapsed() - t2:.1f}s')
+
 
 def contains_dt(v):
     if isinstance(v, datetime.date):
@@ -934,10 +1109,19 @@ def bucket(n):
 
 def clone(v):
     """A distinct object for containers (so that sort stability is observable by identity)."""
-    if isinstance(v, list):
+    if type(v) is list:  # pylint: disable=unidiomatic-typecheck
         return [clone(x) for x in v]
-    if isinstance(v, dict):
+    if type(v) is dict:  # pylint: disable=unidiomatic-typecheck
         return {k: clone(x) for k, x in v.items()}
+    if isinstance(v, list):
+        c = copy.copy(v)
+        c[:] = [clone(x) for x in v]
+        return c
+    if isinstance(v, dict):
+        c = copy.copy(v)
+        for k, x in v.items():
+            c[k] = clone(x)
+        return c
     return v
 
 
@@ -993,6 +1177,1301 @@ def literal(v):
 
 
 # ---------------------------------------------------------------------------------------------------------------------
+# The reference comparison: the property statement as a program (independent of value_compare and of the Lean model)
+# ---------------------------------------------------------------------------------------------------------------------
+
+def ref_compare(a, b):
+    """null first; different types by type name; strings by code point, numbers by exact value, false < true, datetimes by normalised
+    instant, functions / regexes all equal; arrays element-wise then by length; objects as their (key, value) sequence in key order."""
+    ta, tb = tname(a), tname(b)
+    if ta == 'null' or tb == 'null':
+        return 0 if ta == tb else (-1 if ta == 'null' else 1)
+    if ta != tb:
+        return -1 if ta < tb else 1
+    if ta == 'string':
+        ca, cb = [ord(c) for c in a], [ord(c) for c in b]
+        return -1 if ca < cb else (0 if ca == cb else 1)
+    if ta == 'number':
+        inf = float('inf')
+        if a in (inf, -inf) or b in (inf, -inf):
+            return sign((a > b) - (a < b))
+        return sign(Fraction(a) - Fraction(b))
+    if ta == 'boolean':
+        return sign(int(a) - int(b))
+    if ta == 'datetime':
+        return sign(norm_us(a) - norm_us(b))
+    if ta in ('function', 'regex'):
+        return 0
+    if ta == 'array':
+        la, lb = list(a), list(b)
+    else:
+        ka = sorted(a, key=lambda k: [ord(c) for c in k])
+        kb = sorted(b, key=lambda k: [ord(c) for c in k])
+        la = [x for k in ka for x in (str.__str__(k), a[k])]
+        lb = [x for k in kb for x in (str.__str__(k), b[k])]
+    for x, y in zip(la, lb):
+        c = ref_compare(x, y)
+        if c != 0:
+            return c
+    return sign(len(la) - len(lb))
+
+
+class RefImpl:
+    """Stands in for Impl where an oracle only needs `cmp` (so the consumer oracles can be run against the reference)."""
+    cmp = staticmethod(ref_compare)
+
+
+# ---------------------------------------------------------------------------------------------------------------------
+# Tie keys: DIFFERENT objects that compare EQUAL, as the earlier keys of a multi-key sort with a later key deciding
+# ---------------------------------------------------------------------------------------------------------------------
+
+def tie_classes(pool, impl):
+    """Groups of >= 2 distinguishable values that the comparison calls equal: all functions, all regexes, 1 / 1.0, 0 / 0.0 / -0.0,
+    2**53 as int / float, a date / its midnight / aware datetimes of the same local instant, equal containers that are distinct
+    instances (other key order, other number spelling) - directly, and nested in an array / an object / two levels."""
+    base = [g for g in equal_classes(pool, impl) if len(g) >= 2]
+    base.append(list(FUNCS))
+    base.append(list(REGEXES))
+    base.append([0, 0.0, -0.0])
+    base.append([datetime.date(2020, 1, 1), datetime.datetime(2020, 1, 1), HDate(2020, 1, 1)])
+    out = []
+    for g in base:
+        g = g[:8]
+        out.append(g)
+        out.append([[x] for x in g])
+        out.append([{'k': x} for x in g])
+        out.append([[0, {'k': [x]}] for x in g])
+    return out
+
+
+def gen_tie_rows(rng, classes, fields):
+    """rows whose earlier sort fields hold members of one or two tie classes and whose last field decides"""
+    cls = [rng.choice(classes) for _ in range(len(fields) - 1)]
+    extra = rng.choice(classes)
+    nrows = rng.choice([2, 3, 4, 6, 9, 14])
+    rows = []
+    for _ in range(nrows):
+        row = {}
+        for f, g in zip(fields, cls):
+            r = rng.random()
+            if r < 0.8:
+                row[f] = clone(rng.choice(g))
+            elif r < 0.9:
+                row[f] = clone(rng.choice(extra))
+            # else: the field is missing (null)
+        row[fields[-1]] = rng.choice([0, 1, 2, 3, 1.0, 2.0, 'a', None])
+        rows.append(row)
+    return rows
+
+
+def tie_stream(ctx, im, pool, impl):
+    st = ctx.stream('tiekeys', 'multi-key sorts whose EARLIER keys hold different objects that compare equal (different functions, different '
+                               'regexes, 1 vs 1.0, 0 vs -0.0, date vs datetime at midnight vs aware datetime of the same instant, equal arrays / '
+                               'objects that are distinct instances, directly or nested) so that only a LATER key decides: dataSort with 2..4 '
+                               'sort fields (asc / desc, missing fields), arraySort of rows spelled as arrays [k1, k2, d] and as objects '
+                               '{a: k1, b: d}, mathMin / mathMax and arrayIndexOf over such rows: implementation vs model permutation + '
+                               'ordered / permutation / stable oracle w.r.t. value_compare AND w.r.t. the reference comparison; '
+                               'non-trivial = at least two rows and a tie on the first key')
+    rng = ctx.rng('tiekeys')
+    classes = tie_classes(pool, impl)
+    ds_cases, as_cases = [], []
+    for c in load_corpus():
+        if c.get('kind') == 'datasort':
+            ds_cases.append(([unspec(r) for r in c['rows']], c['sorts']))
+    for _ in range(ctx.scale(700, 7000)):
+        nf = rng.choice([2, 2, 3, 3, 4])
+        fields = rng.sample(['a', 'b', 'c', 'd', 'e'], nf)
+        rows = gen_tie_rows(rng, classes, fields)
+        sorts = [[f] + ([rng.random() < 0.5] if rng.random() < 0.8 else []) for f in fields]
+        ds_cases.append((rows, sorts))
+        mode = rng.random()
+        if mode < 0.5:
+            as_cases.append([[clone(r.get(f)) for f in fields] for r in rows])
+        else:
+            as_cases.append([clone(r) for r in rows])
+    reqs = [{'op': 'dataSort', 'rows': [enc(r) for r in rows], 'sorts': sorts} for rows, sorts in ds_cases]
+    reqs += [{'op': 'sort', 'xs': [enc(v) for v in xs]} for xs in as_cases]
+    reqs += [{'op': 'minmax', 'xs': [enc(v) for v in xs[:6]]} for xs in as_cases]
+    resps = ctx.driver.batch(reqs)
+    nd = len(ds_cases)
+    for (rows, sorts), resp in zip(ds_cases, resps[:nd]):
+        f0 = sorts[0][0]
+        tie = len(rows) >= 2 and any(ref_compare(rows[0].get(f0), r.get(f0)) == 0 for r in rows[1:])
+        st.case([[digest(enc(r)) for r in rows], sorts], nontrivial=tie, tags=[f'dataSort:keys{len(sorts)}', 'first-key-tie' if tie else 'no-tie'])
+        arr = list(rows)
+        out = im.call('dataSort', arr, [list(s) for s in sorts])
+        perm = perm_of(out, rows)
+        ctx.compare('tiekeys', {'rows': [spec(r) for r in rows], 'sorts': sorts}, perm, resp.get('perm', resp))
+        run_oracle(ctx, im, 'dataSort', rows, ('raw', sorts))
+        run_oracle(ctx, im, 'dataSort-ref', rows, ('raw', sorts))
+    for xs, resp, resp2 in zip(as_cases, resps[nd:nd + len(as_cases)], resps[nd + len(as_cases):]):
+        st.case([digest(enc(v)) for v in xs], nontrivial=len(xs) >= 2, tags=['arraySort:' + ('array-rows' if isinstance(xs[0], list) else 'object-rows')])
+        arr = list(xs)
+        out = im.call('arraySort', arr)
+        perm = perm_of(out, xs)
+        ctx.compare('tiekeys', {'values': [spec(v) for v in xs]}, perm, resp.get('perm', resp))
+        run_oracle(ctx, im, 'arraySort', xs)
+        run_oracle(ctx, im, 'arraySort-ref', xs)
+        ys = xs[:6]
+        got = {'max': enc_safe(im.call('mathMax', *ys)), 'min': enc_safe(im.call('mathMin', *ys))}
+        ctx.compare('tiekeys', {'minmax': [spec(v) for v in ys]}, got, {'max': resp2.get('max', resp2), 'min': resp2.get('min', resp2)})
+        run_oracle(ctx, im, 'mathMinMax', ys)
+        needle = clone(rng.choice(xs))
+        run_oracle(ctx, im, 'arrayIndexOf', xs, needle, ('raw', None))
+        run_oracle(ctx, im, 'arrayLastIndexOf', xs, needle, ('raw', None))
+
+
+def o_data_sort_ref(im, rows, sorts):
+    arr = list(rows)
+    out = im.call('dataSort', arr, [list(s) for s in sorts])
+    why = check_sorted_stable(perm_of(out, rows), rows, row_cmp(RefImpl, sorts))
+    return None if why is None else ('rows ordered by the sort keys under the reference comparison, stable', why)
+
+
+def o_sort_ref(im, xs):
+    arr = list(xs)
+    out = im.call('arraySort', arr)
+    why = check_sorted_stable(perm_of(out, xs), xs, ref_compare)
+    return None if why is None else ('ordered stable permutation under the reference comparison', why)
+
+
+# ---------------------------------------------------------------------------------------------------------------------
+# Host-boundary values (stateless): subclasses of int / float / str / list / dict / date / datetime, enum members, zone-aware
+# and sub-millisecond datetimes, unusual callables
+# ---------------------------------------------------------------------------------------------------------------------
+
+def host_values():
+    d = datetime.datetime
+    od = collections.OrderedDict
+    vals = [
+        HInt(0), HInt(1), HInt(2), HInt(-1), HInt(2 ** 53 + 1), HInt(10 ** 30), HFloat(0.0), HFloat(-0.0), HFloat(1.0), HFloat(0.5), HFloat(2.0 ** 53),
+        Color.ZERO, Color.RED, Color.GREEN, Color.BIG, Perm.X, Perm.W, Perm.R,
+        HStr(''), HStr('a'), HStr('b'), HStr('aa'), HStr('\uffff'), HStr('\U00010000'), Name.EMPTY, Name.A, Name.B, Name.HIGH,
+        HList(), HList([1]), HList([1, 2]), HList([HInt(1), 2.0]), HList([[1]]), [Color.RED, 'a'], [Name.A, 1], HList([None]), [HList(), HList()],
+        HDict(), HDict(a=1), HDict(a=1, b=2), od([('b', 2), ('a', 1)]), od([('a', 1), ('b', 2)]), od([('a', 2)]), collections.defaultdict(list, {'a': [1]}),
+        collections.defaultdict(list), collections.Counter({'a': 1, 'b': 2}), collections.Counter('ab'), {'a': HInt(1)}, {HStr('a'): 1}, {Name.A: 1, Name.B: 2},
+        {'b': Color.GREEN, 'a': Color.RED}, HDict(a=HList([1, HDict()])), {'a': od([('z', 1), ('b', 2)])},
+        HDate(2020, 1, 1), HDateTime(2020, 1, 1), HDateTime(2020, 1, 1, 0, 0, 0, 1), HDateTime(2020, 1, 1, tzinfo=UTC), HDateTime(2020, 1, 1, 5, 30, tzinfo=tz(330)),
+        d(2020, 1, 1, 0, 0, 0, 1), d(2020, 1, 1, 0, 0, 0, 999), d(2020, 1, 1, 0, 0, 0, 1000), d(2020, 1, 1, 0, 0, 0, 1001), d(2020, 1, 1, 0, 0, 0, 999999),
+        d(2020, 1, 1, 0, 0, 0, 1, tzinfo=UTC), d(2020, 1, 1, 0, 0, 0, 2, tzinfo=tz(60)), d(2020, 1, 1, 1, 0, 0, 1, tzinfo=tz(60)),
+        d(2020, 1, 1, 0, 0, 0, 500, tzinfo=tz(-1)), d(2019, 12, 31, 23, 59, 0, 500, tzinfo=tz(-1)),
+    ]
+    if zoneinfo is not None:
+        for zone, args in (('Europe/Berlin', (2020, 1, 1, 1)), ('Europe/Berlin', (2020, 7, 1, 2)), ('America/New_York', (2021, 11, 7, 1, 30)),
+                           ('Asia/Kolkata', (2020, 1, 1, 5, 30, 0, 1)), ('Pacific/Apia', (2011, 12, 31, 0)), ('UTC', (2020, 1, 1))):
+            try:
+                zi = zoneinfo.ZoneInfo(zone)
+            except Exception:  # pylint: disable=broad-except
+                continue
+            vals.append(d(*args, tzinfo=zi))
+            if zone == 'America/New_York':
+                vals.append(d(*args, tzinfo=zi, fold=1))
+    return vals + list(FUNCS[6:])
+
+
+def host_stream(ctx, im, pool):
+    st = ctx.stream('host', 'host-boundary values (HOST ONLY for the spelling: the model receives the base-type value of each, so the comparison '
+                            'with the model IS the oracle "a subclass instance / enum member compares like its base value"): instances of '
+                            'subclasses of int, float, str, list, dict (OrderedDict, defaultdict, Counter), date, datetime; IntEnum / IntFlag / str-Enum '
+                            'members; ZoneInfo-aware and sub-millisecond datetimes; callable objects, bound methods, classes, callables with default / '
+                            'variadic parameters - mixed with their base twins and ordinary values: all ordered pairs vs the model + all pair laws, '
+                            'all triples, relational operators, arraySort / dataSort / mathMin / mathMax / arrayIndexOf oracles; '
+                            'base-equivalence: every consumer answers the same on the host value and on its base twin; non-trivial = two different values')
+    rng = ctx.rng('host')
+    hv = host_values()
+    twins = [to_base(v) for v in hv if not callable(v)]
+    hpool = hv + twins + sample_pool(rng, pool, ctx.scale(50, 120))
+    impl = matrix_stream(ctx, im, st, 'host', hpool, 'host')
+    n = len(hpool)
+    triples(ctx, im, st, hpool, impl, list(range(len(hv))) + sorted(rng.sample(range(len(hv), n), min(n - len(hv), ctx.scale(40, 120)))))
+    # base equivalence of the comparison itself (also against the reference)
+    bases = [to_base(v) for v in hpool]
+    for i, a in enumerate(hpool):
+        for j, b in enumerate(hpool):
+            want = ref_compare(bases[i], bases[j])
+            if impl[i][j] != want:
+                ctx.witness('host-base-equivalence', {'oracle': 'host-base-equivalence', 'args': [spec_arg(a), spec_arg(b)], 'tz': os.environ.get('TZ', '')},
+                            want, impl[i][j])
+    by_type = {}
+    for i, v in enumerate(hpool):
+        by_type.setdefault(tname(v), []).append(i)
+    # relational operators, spelling, key order
+    npairs = ctx.scale(1500, 15000)
+    for _ in range(npairs):
+        if rng.random() < 0.5:
+            i, j = rng.randrange(len(hv)), rng.randrange(n)
+        else:
+            t = tname(hpool[rng.randrange(len(hv))])
+            i, j = rng.choice(by_type[t]), rng.choice(by_type[t])
+        if rng.random() < 0.5:
+            i, j = j, i
+        a, b = hpool[i], hpool[j]
+        st.case(['relops', digest(spec(a)), digest(spec(b))], nontrivial=(i != j), tags=['relops'])
+        run_oracle(ctx, im, 'relops-sign', a, b)
+        run_oracle(ctx, im, 'int-float-spelling', a, b)
+        run_oracle(ctx, im, 'key-order', a, b, ('raw', i * 7919 + j))
+    # consumers over arrays of host values (ties between a host value and its twin are the interesting part)
+    classes = equal_classes(hpool, impl)
+    sort_cases = []
+    for _ in range(ctx.scale(500, 8000)):
+        k = rng.choice([2, 3, 5, 8, 12, 20])
+        mode = rng.random()
+        src = hv if mode < 0.3 else (rng.choice(classes) + rng.choice(classes) + rng.choice(classes) if mode < 0.7
+                                     else [hpool[i] for i in by_type[rng.choice(sorted(by_type))]])
+        sort_cases.append([clone(rng.choice(src)) for _ in range(k)])
+    resps = ctx.driver.batch([{'op': 'sort', 'xs': [enc(v) for v in xs]} for xs in sort_cases])
+    for xs, resp in zip(sort_cases, resps):
+        st.case(['sort'] + [digest(spec(v)) for v in xs], nontrivial=True, tags=['arraySort'])
+        arr = list(xs)
+        out = im.call('arraySort', arr)
+        ctx.compare('host', {'values': [spec(v) for v in xs]}, perm_of(out, xs), resp.get('perm', resp))
+        run_oracle(ctx, im, 'arraySort', xs)
+        run_oracle(ctx, im, 'arraySort-ref', xs)
+        run_oracle(ctx, im, 'mathMinMax', xs[:6])
+        needle = clone(rng.choice(xs))
+        if not callable(needle):
+            index = rng.choice([None, None, 0, 1, HInt(1), Color.RED, HFloat(1.0), 1.0])
+            if index is None or index < len(xs):
+                iarg = ('raw', index) if index is None or host_kind(index) is None else index
+                run_oracle(ctx, im, 'arrayIndexOf', xs, needle, iarg)
+                run_oracle(ctx, im, 'arrayLastIndexOf', xs, needle, iarg)
+    # dataSort over host rows (dict subclasses as rows, host values as field values, str subclasses as field names)
+    fvals = [v for v in hv if not callable(v)] + twins
+    for _ in range(ctx.scale(300, 5000)):
+        rows = []
+        for _r in range(rng.choice([2, 3, 5, 8])):
+            row = rng.choice([dict, HDict, collections.OrderedDict])()
+            for f in rng.sample(['a', 'b', 'id'], rng.choice([2, 3])):
+                row[f if rng.random() < 0.8 else HStr(f)] = rng.choice(fvals) if rng.random() < 0.7 else rng.choice([0, 1, 2, None, 'a'])
+            rows.append(row)
+        sorts = [[rng.choice(['a', 'b', 'id', HStr('a'), HStr('b')])] + ([rng.random() < 0.5] if rng.random() < 0.8 else []) for _s in range(rng.choice([1, 2, 2, 3]))]
+        sorts_rt = [[spec(s[0])] + s[1:] for s in sorts]
+        st.case(['dataSort', [digest(spec(r)) for r in rows], sorts_rt], nontrivial=True, tags=['dataSort'])
+        run_oracle(ctx, im, 'dataSort', rows, ('sorts', sorts))
+        run_oracle(ctx, im, 'dataSort-ref', rows, ('sorts', sorts))
+    ctx.notes.append(f'host: {len(hv)} host values + {len(twins)} base twins + pool sample = {n} values, all {n * n} ordered pairs and all triples')
+
+
+def o_host_base(im, a, b):
+    want = ref_compare(to_base(a), to_base(b))
+    got = im.cmp(a, b)
+    return None if got == want and is_int(got) else (want, got)
+
+
+# ---------------------------------------------------------------------------------------------------------------------
+# Histories: the comparison is a function of the CURRENT values only - whatever happened before in this process, on
+# these options, in this or an earlier run (faulting sorts, aborted runs, mutations, nested sorts)
+# ---------------------------------------------------------------------------------------------------------------------
+#
+# A history is JSON: {'consts': [spec, ...], 'runs': [{'mode': 'script' | 'expr', 'options': 'reuse' | 'fresh', 'maxs': n, 'builtins': bool,
+# 'tz': zone | None, 'steps': [step, ...]}, ...]}. The variables v0..vN live in ONE globals dict for the whole history. Steps:
+#   ['new', i, c, how]            vi = constant c (how: 'val' host-supplied deep copy | 'lit' literal expression | 'json' jsonParse)
+#   ['set', i, key, c] ['del', i, key] ['setv', i, key, j]     objectSet / objectDelete / objectSet(vi, key, vj) with j < i (no cycles)
+#   ['aset', i, ix, c] ['push', i, c] ['pop', i] ['pushv', i, j]   arraySet / arrayPush / arrayPop / arrayPush(vi, vj) with j < i
+#   ['setin', i, ix, key, c]      objectSet(arrayGet(vi, ix), key, c): a row / element object is changed in place inside its array
+#   ['obs', [i, j, ...], mask]    observe: snapshots of the variables + the consumers selected by mask on them (see h_obs_text)
+#   ['rsort', [i...], fn]         arraySort(arrayNew(vi...), fn) with a well-behaved compare function (script or host callable)
+#   ['dsort', [i...], sorts]      dataSort(arrayNew(vi...), sorts) (a fault when one of the variables is not an object)
+#   ['sortvar', i]                arraySort(vi) in place     ['idxin', i, j]  arrayIndexOf / arrayLastIndexOf(vi, vj)
+#   ['isort', mutstep, obsstep]   a sort whose compare function mutates a variable and observes on every call
+#   ['fault', kind, [i...], k]    a library call that fails (see H_FAULTS) - it returns null or aborts the run, the history goes on
+
+H_PRELUDE = '''
+function c11sloppy(a, b):
+    if a < b:
+        return -1
+    endif
+    if a > b:
+        return 1
+    endif
+endfunction
+
+function c11rev(a, b):
+    return systemCompare(b, a)
+endfunction
+
+function c11fwd(a, b):
+    return systemCompare(a, b)
+endfunction
+
+function c11slow(a, b):
+    c11t = 1
+    c11t = 2
+    return systemCompare(a, b)
+endfunction
+
+function c11nested(a, b):
+    c11t = arraySort(arrayNew(b, a))
+    return systemCompare(a, b)
+endfunction
+
+function c11nestedFault(a, b):
+    c11t = arraySort(arrayNew(b, a, b), c11sloppy)
+    return systemCompare(a, b)
+endfunction
+'''
+
+H_FAULTS = ['sloppy', 'retstr', 'raise', 'none', 'abort', 'badsig0', 'badsig1', 'badsig3', 'deepsort', 'deepop', 'deepcall', 'deepindex', 'nan',
+            'dsrow', 'dssorts', 'dsfield', 'args', 'args2', 'index', 'matchraise', 'slow', 'nestedfault']
+H_OKFNS = {'c11rev': -1, 'c11fwd': 1, 'c11nested': 1, 'c11hostobj': 1, 'c11hostrev': -1, 'c11hostkw': 1, 'c11hostmethod': 1}
+H_DEEP = 1500
+
+
+def V(i):
+    """an operand: variable number i, or ['c', k] = the (immutable scalar) constant k"""
+    return f'c11val({i[1]})' if isinstance(i, list) else f'v{i}'
+
+
+def json_text(v):
+    """jsonParse('...') text of a plain JSON value without characters that need escaping, or None"""
+    try:
+        text = json.dumps(v, allow_nan=False)
+    except (TypeError, ValueError):
+        return None
+    return f"jsonParse('{text}')" if re.fullmatch(r'[-A-Za-z0-9 .,:{}\[\]"]*', text) else None
+
+
+def is_plain_json(v):
+    if v is None or type(v) in (bool, int, float, str):
+        return True
+    if type(v) is list:  # pylint: disable=unidiomatic-typecheck
+        return all(is_plain_json(x) for x in v)
+    if type(v) is dict:  # pylint: disable=unidiomatic-typecheck
+        return all(type(k) is str and is_plain_json(x) for k, x in v.items())
+    return False
+
+
+def h_obs_text(tag, vs, mask):
+    a, b = V(vs[0]), V(vs[1])
+    allv = ', '.join(V(i) for i in vs)
+    parts = []
+    if mask & 1:
+        parts += ["'cmp'", f'systemCompare({a}, {b})', "'rcmp'", f'systemCompare({b}, {a})']
+    if mask & 2:
+        parts += ["'ops'", 'arrayNew(' + ', '.join(f'{a} {op} {b}' for op in RELOPS) + ')']
+    if mask & 4:
+        parts += ["'idx'", f'arrayIndexOf(arrayNew({b}, {a}), {a})', "'lidx'", f'arrayLastIndexOf(arrayNew({a}, {b}), {a})']
+    if mask & 8:
+        parts += ["'min'", f'c11which(mathMin({allv}), {allv})', "'max'", f'c11which(mathMax({allv}), {allv})']
+    if mask & 16:
+        parts += ["'sort'", f'c11perm(arraySort(arrayNew({allv})), {allv})']
+    snaps = ', '.join(f'c11snap({V(i)})' for i in vs)
+    return f"c11emit(arrayNew('obs', {tag}, arrayNew({snaps}), objectNew({', '.join(parts)})))"
+
+
+def h_fault_text(kind, vs, k, invar=None):
+    """invar: the failing call works on this persisting array variable itself instead of on a temporary array"""
+    arr = 'arrayNew(' + ', '.join([V(i) for i in vs] + [V(vs[0]), '3', '1', '3', '2', '1']) + ')'
+    objs = ', '.join(V(i) for i in vs)
+    rows = f'arrayNew({objs}, 1, {objs}, null)'
+    rows2 = f'arrayNew({objs}, {objs})'
+    if invar is not None:
+        arr = rows = rows2 = V(invar)
+    return {
+        'sloppy': f'arraySort({arr}, c11sloppy)',
+        'retstr': f"arraySort({arr}, c11kthfn({k}, 'str'))",
+        'raise': f"arraySort({arr}, c11kthfn({k}, 'raise'))",
+        'none': f"arraySort({arr}, c11kthfn({k}, 'none'))",
+        'abort': f"arraySort({arr}, c11kthfn({k}, 'abort'))",
+        'badsig0': f'arraySort({arr}, c11bad0)',
+        'badsig1': f'arraySort({arr}, c11bad1)',
+        'badsig3': f'arraySort({arr}, c11bad3)',
+        'deepsort': f'arraySort(arrayNew({objs}, c11deep(0), {objs}, c11deep(1)))',
+        'deepop': f'arrayNew(c11deep(0) < c11deep(1), c11deep(0) == c11deep(1), arrayNew({objs}, c11deep(0)) >= arrayNew({objs}, c11deep(1)))',
+        'deepcall': f'arrayNew(systemCompare(c11deep(0), c11deep(1)), mathMax({objs}, c11deep(0), c11deep(1)), mathMin(c11deep(0), c11deep(1), {objs}))',
+        'deepindex': f'arrayNew(arrayIndexOf(arrayNew({objs}, c11deep(0)), c11deep(1)), arrayLastIndexOf(arrayNew(c11deep(0), {objs}), c11deep(1)))',
+        'nan': f'arrayNew(arraySort(arrayNew(c11nan(), {objs}, 1, c11nan(), {objs})), mathMin(c11nan(), {objs}), c11nan() < {V(vs[0])})',
+        'dsrow': f"dataSort({rows}, arrayNew(arrayNew('a'), arrayNew('b', true)))",
+        'dssorts': f'dataSort({rows2}, arrayNew(1))',
+        'dsfield': f'dataSort({rows2}, arrayNew(arrayNew({V(vs[0])})))',
+        'args': 'arraySort(1)',
+        'args2': f'arraySort({arr}, 1)',
+        'index': f'arrayNew(arrayIndexOf({arr}, 1, 99), arrayLastIndexOf({arr}, 1, 99))',
+        'matchraise': f"arrayIndexOf({arr}, c11kthfn({k}, 'raise'))",
+        'slow': f'arraySort({arr}, c11slow)',
+        'nestedfault': f'arraySort({arr}, c11nestedFault)',
+    }[kind]
+
+
+class HCompiler:
+    """steps -> BareScript text; assigns a tag to every emitting step"""
+
+    def __init__(self, consts):
+        self.consts = consts
+        self.tag = 0
+        self.meta = {}      # tag -> step
+
+    def next_tag(self, step):
+        self.tag += 1
+        self.meta[self.tag] = step
+        return self.tag
+
+    def expr(self, step):
+        """-> (target variable or None, expression text, tag or None) for single-expression steps"""
+        k = step[0]
+        if k == 'new':
+            _, i, c, how = step
+            value = self.consts[c]
+            text = None
+            if how == 'lit' and is_plain_json(value):
+                text = literal(value)
+            elif how == 'json' and is_plain_json(value):
+                text = json_text(value)
+            return V(i), text or f'c11val({c})', None
+        if k == 'set':
+            return None, f"objectSet({V(step[1])}, '{step[2]}', c11val({step[3]}))", None
+        if k == 'del':
+            return None, f"objectDelete({V(step[1])}, '{step[2]}')", None
+        if k == 'setv':
+            return None, f"objectSet({V(step[1])}, '{step[2]}', {V(step[3])})", None
+        if k == 'aset':
+            return None, f'arraySet({V(step[1])}, {step[2]}, c11val({step[3]}))', None
+        if k == 'setin':
+            return None, f"objectSet(arrayGet({V(step[1])}, {step[2]}), '{step[3]}', c11val({step[4]}))", None
+        if k == 'push':
+            return None, f'arrayPush({V(step[1])}, c11val({step[2]}))', None
+        if k == 'pop':
+            return None, f'arrayPop({V(step[1])})', None
+        if k == 'pushv':
+            return None, f'arrayPush({V(step[1])}, {V(step[2])})', None
+        if k == 'obs':
+            tag = self.next_tag(step)
+            return None, h_obs_text(tag, step[1], step[2]), tag
+        if k == 'rsort':
+            tag = self.next_tag(step)
+            allv = ', '.join(V(i) for i in step[1])
+            snaps = ', '.join(f'c11snap({V(i)})' for i in step[1])
+            return None, f"c11emit(arrayNew('rsort', {tag}, arrayNew({snaps}), c11perm(arraySort(arrayNew({allv}), {step[2]}), {allv})))", tag
+        if k == 'dsort':
+            tag = self.next_tag(step)
+            allv = ', '.join(V(i) for i in step[1])
+            snaps = ', '.join(f'c11snap({V(i)})' for i in step[1])
+            sorts = 'arrayNew(' + ', '.join('arrayNew(' + ', '.join([f"'{s[0]}'"] + (['true' if s[1] else 'false'] if len(s) > 1 else [])) + ')' for s in step[2]) + ')'
+            return None, f"c11emit(arrayNew('dsort', {tag}, arrayNew({snaps}), c11perm(dataSort(arrayNew({allv}), {sorts}), {allv})))", tag
+        if k == 'sortvar':
+            tag = self.next_tag(step)
+            a = V(step[1])
+            fn = f', {step[2]}' if len(step) > 2 and step[2] else ''
+            return None, f"c11emit(arrayNew('sortvar', {tag}, arrayNew(c11snap({a})), c11perm2(c11shallow({a}), arraySort({a}{fn}))))", tag
+        if k == 'dsortvar':
+            tag = self.next_tag(step)
+            a = V(step[1])
+            sorts = 'arrayNew(' + ', '.join('arrayNew(' + ', '.join([f"'{s[0]}'"] + (['true' if s[1] else 'false'] if len(s) > 1 else [])) + ')' for s in step[2]) + ')'
+            return None, f"c11emit(arrayNew('dsortvar', {tag}, arrayNew(c11snap({a})), c11perm2(c11shallow({a}), dataSort({a}, {sorts}))))", tag
+        if k == 'idxin':
+            tag = self.next_tag(step)
+            a, x = V(step[1]), V(step[2])
+            return None, f"c11emit(arrayNew('idxin', {tag}, arrayNew(c11snap({a}), c11snap({x})), arrayNew(arrayIndexOf({a}, {x}), arrayLastIndexOf({a}, {x}))))", tag
+        if k == 'fault':
+            return None, h_fault_text(step[1], step[2], step[3], step[4] if len(step) > 4 else None), None
+        raise ValueError(f'unknown step {step!r}')
+
+    def lines(self, step):
+        """-> script lines of any step"""
+        if step[0] == 'isort':
+            tag = self.next_tag(step)
+            body = []
+            for sub in step[1:]:
+                target, text, _ = self.expr(sub)
+                body.append('    ' + (f'{target} = {text}' if target else text))
+            return [f'function c11in{tag}(a, b):'] + body + ['    return systemCompare(a, b)', 'endfunction',
+                                                              f"c11emit(arrayNew('isort', {tag}, arrayNew(), arraySort(arrayNew(3, 1, 2, 1, 0, 2), c11in{tag})))"]
+        target, text, _ = self.expr(step)
+        return [f'{target} = {text}' if target else text]
+
+
+def h_emitting(step):
+    return step[0] in ('obs', 'rsort', 'dsort', 'sortvar', 'dsortvar', 'idxin', 'isort')
+
+
+def h_is_int(x):
+    return isinstance(x, int) and not isinstance(x, bool)
+
+
+def h_check_record(rec, step, add, model):
+    """One emitted record against the reference comparison of the snapshots. add(field, expected, actual); model(request, got, pick)."""
+    kind, snaps, res = rec[0], rec[2], rec[3]
+    if kind == 'obs':
+        c = ref_compare(snaps[0], snaps[1])
+        if 'cmp' in res:
+            if not (h_is_int(res['cmp']) and res['cmp'] == c):
+                add('systemCompare(l, r)', c, res['cmp'])
+            if not (h_is_int(res['rcmp']) and res['rcmp'] == -c):
+                add('systemCompare(r, l)', -c, res['rcmp'])
+        if 'ops' in res:
+            want = [fn(c) for fn in RELOPS.values()]
+            if res['ops'] != want or any(type(x) is not bool for x in res['ops']):
+                add('operators ' + ' '.join(RELOPS), want, res['ops'])
+        if 'cmp' in res and 'ops' in res and isinstance(res['ops'], list) and len(res['ops']) == 6:
+            got = dict(zip(RELOPS, res['ops']))
+            got['r'] = res['cmp']
+            model({'op': 'cmp', 'a': enc(snaps[0]), 'b': enc(snaps[1])}, got, lambda resp: {k: resp.get(k, resp) for k in list(RELOPS) + ['r']})
+        if 'idx' in res:
+            want = [0 if c == 0 else 1, 1 if c == 0 else 0]
+            if [res['idx'], res['lidx']] != want:
+                add('arrayIndexOf([r, l], l), arrayLastIndexOf([l, r], l)', want, [res['idx'], res['lidx']])
+        for name, sgn in (('min', -1), ('max', 1)):
+            if name in res:
+                got = res[name]
+                ok = isinstance(got, list) and got and any(all(ref_compare(snaps[g], s) * sgn >= 0 for s in snaps) for g in got)
+                if not ok:
+                    add(f'math{name.capitalize()}: index of a {"least" if sgn < 0 else "greatest"} argument', 'an extremal argument', got)
+        if 'min' in res and 'max' in res and isinstance(res['min'], list) and isinstance(res['max'], list) and res['min'] and res['max']:
+            got = {'max': enc(snaps[res['max'][0]]), 'min': enc(snaps[res['min'][0]])}
+            model({'op': 'minmax', 'xs': [enc(s) for s in snaps]}, got, lambda resp: {'max': resp.get('max', resp), 'min': resp.get('min', resp)})
+        if 'sort' in res:
+            why = check_sorted_stable(res['sort'], snaps, ref_compare)
+            if why is not None:
+                add('arraySort: ordered stable permutation', 'ordered stable permutation', [why, res['sort']])
+            model({'op': 'sort', 'xs': [enc(s) for s in snaps]}, res['sort'], lambda resp: resp.get('perm', resp))
+    elif kind == 'rsort':
+        sgn = H_OKFNS[step[2]]
+        why = check_sorted_stable(res, snaps, lambda x, y: sgn * ref_compare(x, y))
+        if why is not None:
+            add(f'arraySort with compare function {step[2]}: ordered stable permutation', 'ordered stable permutation', [why, res])
+    elif kind == 'dsort':
+        if all(isinstance(s, dict) for s in snaps):
+            sorts = step[2]
+            why = check_sorted_stable(res, snaps, row_cmp(RefImpl, sorts))
+            if why is not None:
+                add('dataSort: rows ordered by the sort keys, stable', 'ordered stable permutation', [why, res])
+            model({'op': 'dataSort', 'rows': [enc(s) for s in snaps], 'sorts': sorts}, res, lambda resp: resp.get('perm', resp))
+    elif kind == 'sortvar':
+        if isinstance(snaps[0], list):
+            sgn = H_OKFNS[step[2]] if len(step) > 2 and step[2] else 1
+            why = check_sorted_stable(res, snaps[0], lambda x, y: sgn * ref_compare(x, y))
+            if why is not None:
+                add('arraySort(variable) in place: ordered stable permutation', 'ordered stable permutation', [why, res])
+            if sgn == 1:
+                model({'op': 'sort', 'xs': [enc(s) for s in snaps[0]]}, res, lambda resp: resp.get('perm', resp))
+    elif kind == 'dsortvar':
+        if isinstance(snaps[0], list) and all(isinstance(r, dict) for r in snaps[0]):
+            why = check_sorted_stable(res, snaps[0], row_cmp(RefImpl, step[2]))
+            if why is not None:
+                add('dataSort(variable) in place: rows ordered by the sort keys, stable', 'ordered stable permutation', [why, res])
+            model({'op': 'dataSort', 'rows': [enc(r) for r in snaps[0]], 'sorts': step[2]}, res, lambda resp: resp.get('perm', resp))
+    elif kind == 'idxin':
+        arr, x = snaps
+        if isinstance(arr, list):
+            eq = [i for i, y in enumerate(arr) if ref_compare(y, x) == 0]
+            want = [eq[0] if eq else -1, eq[-1] if eq else -1]
+            if res != want:
+                add('arrayIndexOf / arrayLastIndexOf(array variable, value)', want, res)
+    elif kind == 'isort':
+        if not (isinstance(res, list) and len(res) == 6 and all(type(x) in (int, float) for x in res) and [float(x) for x in res] == [0.0, 1.0, 1.0, 2.0, 2.0, 3.0]):
+            add('arraySort([3, 1, 2, 1, 0, 2], observing compare function)', [0, 1, 1, 2, 2, 3], spec_safe(res))
+
+
+class HistoryRunner:
+    def __init__(self, im):
+        self.im = im
+        self.prelude = im.parser.parse_script(H_PRELUDE)
+        deep = []
+        for _ in range(2):
+            x = []
+            for _d in range(H_DEEP):
+                x = [x]
+            deep.append(x)
+        self.deep = deep
+
+    def host_globals(self, consts, records):
+        im = self.im
+
+        def kthfn(args, options):  # pylint: disable=unused-argument
+            k, mode = args
+            state = {'n': 0}
+
+            def fn(fargs, foptions):  # pylint: disable=unused-argument
+                state['n'] += 1
+                if state['n'] >= k:
+                    if mode == 'raise':
+                        raise ValueError('c11: the compare function failed')
+                    if mode == 'abort':
+                        raise im.runtime.BareScriptRuntimeError('c11: the compare function aborted the run')
+                    if mode == 'none':
+                        return None
+                    if mode == 'str':
+                        return 'x'
+                if len(fargs) < 2:
+                    return False        # used as a match function: no match until it fails
+                return im.value.value_compare(fargs[0], fargs[1])
+            return fn
+
+        def which(args, options):  # pylint: disable=unused-argument
+            res = args[0]
+            return [i for i, x in enumerate(args[1:]) if x is res or _same_scalar(x, res)]
+
+        def emit(args, options):  # pylint: disable=unused-argument
+            records.append(args[0])
+
+        hostobj = HCmp(im, 1)
+        scalars = {}
+
+        def val(args, options):  # pylint: disable=unused-argument
+            k = int(args[0])
+            if k in scalars:
+                return scalars[k]
+            v = unspec(consts[k])
+            if not isinstance(v, (list, dict)):
+                scalars[k] = v      # an immutable constant is ONE host object (identity is how results are matched to arguments)
+            return v
+
+        return {
+            'c11val': val,
+            'c11snap': lambda args, options: copy.deepcopy(args[0]),
+            'c11shallow': lambda args, options: list(args[0]) if isinstance(args[0], list) else None,
+            'c11emit': emit,
+            'c11which': which,
+            'c11perm': lambda args, options: perm_of(args[0], args[1:]),
+            'c11perm2': lambda args, options: perm_of(args[1], args[0]) if isinstance(args[0], list) else args[1],
+            'c11deep': lambda args, options: self.deep[int(args[0])],
+            'c11nan': lambda args, options: float('nan'),
+            'c11kthfn': kthfn,
+            'c11bad0': lambda: 0,
+            'c11bad1': lambda args: 0,
+            'c11bad3': lambda args, options, extra: 0,
+            'c11hostobj': hostobj,
+            'c11hostrev': functools.partial(_host_cmp, im, -1),
+            'c11hostkw': lambda args, options=None, *rest, **kw: im.value.value_compare(args[0], args[1]),
+            'c11hostmethod': hostobj.method,
+        }
+
+    def run(self, hist):
+        """-> (failures, model cases [(case, got, request, pick)], stats)"""
+        im = self.im
+        consts = hist['consts']
+        records = []
+        glob = self.host_globals(consts, records)
+        shared = {'globals': glob, 'maxStatements': MAXS}
+        failures, mcases = [], []
+        stats = {'records': 0, 'aborted': 0, 'steps': 0}
+        comp = HCompiler([unspec(c) for c in consts])
+        old_tz = os.environ.get('TZ')
+        tz_changed = False
+        try:
+            im.runtime.execute_script(self.prelude, shared)
+            for rix, run in enumerate(hist['runs']):
+                if run.get('tz'):
+                    os.environ['TZ'] = run['tz']
+                    time.tzset()
+                    tz_changed = True
+                opts = shared if run.get('options', 'reuse') == 'reuse' else {'globals': glob}
+                opts['maxStatements'] = run.get('maxs', MAXS)
+                first = len(records)
+                expected_tags = []
+                aborted = False
+                if run.get('mode', 'script') == 'script':
+                    lines = []
+                    for step in run['steps']:
+                        t0 = comp.tag
+                        lines.extend(comp.lines(step))
+                        if h_emitting(step):
+                            expected_tags.append(t0 + 1)
+                    try:
+                        im.runtime.execute_script(im.parser.parse_script('\n'.join(lines) + '\n'), opts)
+                    except im.runtime.BareScriptRuntimeError:
+                        aborted = True
+                    except Exception as exc:  # pylint: disable=broad-except
+                        aborted = True
+                        failures.append({'run': rix, 'field': 'host exception out of execute_script', 'expected': 'no exception', 'actual': f'{type(exc).__name__}: {exc}'[:200]})
+                else:
+                    opts['statementCount'] = 0
+                    for step in run['steps']:
+                        t0 = comp.tag
+                        try:
+                            if step[0] == 'isort':
+                                im.runtime.execute_script(im.parser.parse_script('\n'.join(comp.lines(step)) + '\n'), opts)
+                            else:
+                                target, text, _ = comp.expr(step)
+                                val = im.runtime.evaluate_expression(im.parser.parse_expression(text), opts, None, run.get('builtins', True))
+                                if target:
+                                    glob[target] = val
+                            if h_emitting(step):
+                                expected_tags.append(t0 + 1)
+                        except im.runtime.BareScriptRuntimeError:
+                            stats['aborted'] += 1
+                        except Exception as exc:  # pylint: disable=broad-except
+                            if step[0] != 'fault':
+                                failures.append({'run': rix, 'step': step, 'field': 'host exception out of evaluate_expression', 'expected': 'no exception',
+                                                 'actual': f'{type(exc).__name__}: {exc}'[:200]})
+                stats['steps'] += len(run['steps'])
+                stats['aborted'] += int(aborted)
+                new = records[first:]
+                seen = set()
+                for rec in new:
+                    stats['records'] += 1
+                    tag = rec[1]
+                    seen.add(tag)
+                    step = comp.meta.get(tag)
+
+                    def add(field, expected, actual, rec=rec, step=step):
+                        failures.append({'run': rix, 'step': step, 'operands': [spec_safe(s) for s in rec[2]], 'field': field, 'expected': expected, 'actual': actual})
+
+                    def model(request, got, pick, rec=rec, step=step):
+                        mcases.append(({'step': step, 'operands': [spec_safe(s) for s in rec[2]]}, got, request, pick))
+                    try:
+                        h_check_record(rec, step, add, model)
+                    except Exception as exc:  # pylint: disable=broad-except
+                        add('the observation has the expected shape', 'a record', f'{type(exc).__name__}: {exc}'[:200])
+                if not aborted:
+                    for tag in expected_tags:
+                        if tag not in seen:
+                            failures.append({'run': rix, 'step': comp.meta.get(tag), 'field': 'the observation step produced a record', 'expected': 'a record', 'actual': None})
+        finally:
+            if tz_changed:
+                if old_tz is None:
+                    os.environ.pop('TZ', None)
+                else:
+                    os.environ['TZ'] = old_tz
+                time.tzset()
+        return failures, mcases, stats
+
+
+def _host_cmp(im, sgn, args, options):  # pylint: disable=unused-argument
+    return sgn * im.value.value_compare(args[0], args[1])
+
+
+class HCmp:
+    """a callable host object used as a compare function"""
+
+    def __init__(self, im, sgn):
+        self.im = im
+        self.sgn = sgn
+
+    def __call__(self, args, options=None, *rest, **kwargs):  # pylint: disable=keyword-arg-before-vararg
+        return self.sgn * self.im.value.value_compare(args[0], args[1])
+
+    def method(self, args, options):  # pylint: disable=unused-argument
+        return self.sgn * self.im.value.value_compare(args[0], args[1])
+
+
+H_KEYS = ['a', 'b', 'c']
+H_ZONES = ['America/New_York', 'Asia/Kolkata', 'UTC']
+
+
+def h_scalars():
+    d = datetime.datetime
+    return [None, True, False, 0, 1, 2, 5, 1.0, 2.0, 0.5, -1, 'a', 'b', '', datetime.date(2020, 1, 1), d(2020, 1, 1), d(2020, 1, 1, tzinfo=UTC),
+            d(2020, 1, 1, 1, tzinfo=tz(60)), d(2020, 1, 2)]
+
+
+def h_host_scalars():
+    return [HInt(1), HFloat(1.0), Color.RED, Color.GREEN, HStr('a'), Name.A, Name.B, HDate(2020, 1, 1), HDateTime(2020, 1, 1, tzinfo=UTC)]
+
+
+def h_value(rng, kind, hostish, depth=1):
+    sc = h_scalars()[:14] if rng.random() < 0.8 else h_scalars()
+    if hostish and rng.random() < 0.4:
+        sc = h_host_scalars()
+
+    def member():
+        if depth > 0 and rng.random() < 0.25:
+            return h_value(rng, rng.choice(['obj', 'arr']), hostish, depth - 1)
+        return rng.choice(sc[:8]) if rng.random() < 0.6 else rng.choice(sc)
+    if kind == 'sc':
+        return rng.choice(sc)
+    if kind == 'rows':
+        out = [{k: (rng.choice(sc[:8]) if rng.random() < 0.7 else rng.choice(sc)) for k in rng.sample(H_KEYS, rng.choice([1, 2, 3]))} for _ in range(rng.choice([2, 3, 4]))]
+        if rng.random() < 0.2:
+            out.insert(rng.randrange(len(out) + 1), rng.choice([1, 'a', None, [1]]))
+        return out
+    if kind == 'strs':
+        return [rng.choice(['a', 'b', '', 'a', 1, 1.0, True, None]) for _ in range(rng.choice([2, 3, 4]))]
+    if kind == 'arr':
+        out = [member() for _ in range(rng.choice([0, 1, 2, 2, 3]))]
+        return HList(out) if hostish and rng.random() < 0.3 else out
+    keys = rng.sample(H_KEYS, rng.choice([1, 2, 2, 3]))
+    out = {k: member() for k in keys}
+    if hostish and rng.random() < 0.4:
+        out = rng.choice([HDict, collections.OrderedDict, lambda d: collections.defaultdict(list, d)])(out)
+    return out
+
+
+class HGen:
+    """Random histories from motifs; the motif 'reobs' (observe, mutate, observe the same variables again) is the core."""
+
+    def __init__(self, rng, hostish=False, zones=()):
+        self.rng = rng
+        self.hostish = hostish
+        self.zones = list(zones)
+        self.consts = []
+        self.kinds = {}
+        self.nvars = rng.choice([3, 4, 4, 5])
+
+    def const(self, v):
+        s = spec(v)
+        for i, c in enumerate(self.consts):
+            if c == s:
+                return i
+        self.consts.append(s)
+        return len(self.consts) - 1
+
+    def new(self, i, like=None):
+        rng = self.rng
+        if like is not None and rng.random() < 0.5:
+            self.kinds[i] = self.kinds[like[1]]
+            return ['new', i, like[2], rng.choice(['val', 'lit', 'json'])]
+        # the first variables always cover the kinds: two objects, an array of scalars / a mixed array, an array of rows / ...
+        template = ['obj', 'obj', rng.choice(['strs', 'strs', 'arr']), rng.choice(['rows', 'rows', 'arr', 'obj'])]
+        kind = template[i] if i < len(template) and i not in self.kinds else rng.choice(['obj', 'obj', 'obj', 'obj', 'arr', 'arr', 'rows', 'strs', 'sc'])
+        value = h_value(rng, kind, self.hostish)
+        self.kinds[i] = kind
+        return ['new', i, self.const(value), rng.choice(['val', 'val', 'lit', 'json'])]
+
+    def scalar_operand(self):
+        return ['c', self.const(self.rng.choice(['a', 'b', '', 1, 1.0, 0, True, None, 2, 5]))]
+
+    def mutate(self, i=None):
+        rng = self.rng
+        if i is None:
+            i = rng.randrange(self.nvars)
+        kind = self.kinds.get(i, 'sc')
+        lower = list(range(i))
+        if kind == 'obj':
+            r = rng.random()
+            if r < 0.6 or (not lower and r < 0.85):
+                return ['set', i, rng.choice(H_KEYS), self.const(h_value(rng, rng.choice(['sc', 'sc', 'sc', 'arr', 'obj']), self.hostish, 0))]
+            if r < 0.85:
+                return ['setv', i, rng.choice(H_KEYS), rng.choice(lower)]
+            return ['del', i, rng.choice(H_KEYS)]
+        if kind in ('rows', 'arr') and rng.random() < (0.4 if kind == 'rows' else 0.12):
+            return ['setin', i, rng.choice([0, 0, 1, 2]), rng.choice(H_KEYS), self.const(h_value(rng, 'sc', self.hostish, 0))]
+        if kind == 'rows':
+            r = rng.random()
+            if r < 0.3:
+                return ['push', i, self.const(h_value(rng, 'obj', self.hostish, 0) if rng.random() < 0.7 else rng.choice([1, 'a', None]))]
+            if r < 0.6:
+                return ['aset', i, rng.choice([0, 1, 2]), self.const(h_value(rng, 'obj', self.hostish, 0))]
+            if r < 0.8 and lower:
+                return ['pushv', i, rng.choice(lower)]
+            return ['pop', i]
+        if kind == 'strs':
+            r = rng.random()
+            fam = ['a', 'b', '', 'a', 'b', 1, 1.0, True, None, 2]
+            if r < 0.6:
+                return ['aset', i, rng.choice([0, 0, 1, 1, 2, 3]), self.const(rng.choice(fam))]
+            if r < 0.8:
+                return ['push', i, self.const(rng.choice(fam))]
+            return ['pop', i]
+        if kind == 'arr':
+            r = rng.random()
+            if r < 0.35:
+                return ['push', i, self.const(h_value(rng, 'sc', self.hostish, 0))]
+            if r < 0.7:
+                return ['aset', i, rng.choice([0, 0, 1, 2]), self.const(h_value(rng, rng.choice(['sc', 'sc', 'arr', 'obj']), self.hostish, 0))]
+            if r < 0.85 and lower:
+                return ['pushv', i, rng.choice(lower)]
+            return ['pop', i]
+        return self.new(i)
+
+    def vars_(self, k, prefer=None):
+        rng = self.rng
+        out = []
+        prefer = {'arr': ('arr', 'rows', 'strs'), 'rows': ('rows',), 'obj': ('obj',), 'strs': ('strs',)}.get(prefer)
+        for _ in range(k):
+            if prefer is not None and rng.random() < 0.7:
+                cand = [i for i in range(self.nvars) if self.kinds.get(i) in prefer]
+                if cand:
+                    out.append(rng.choice(cand))
+                    continue
+            out.append(rng.randrange(self.nvars))
+        return out
+
+    def mask(self, heal=0.12):
+        rng = self.rng
+        m = 0
+        for bit in (1, 2, 4, 8):
+            if rng.random() < 0.6:
+                m |= bit
+        if rng.random() < heal:
+            m |= 16
+        return m or 3
+
+    def obs(self, vs=None):
+        rng = self.rng
+        if vs is None:
+            vs = self.vars_(rng.choice([2, 2, 3]), rng.choice(['obj', 'obj', 'arr', None]))
+            if rng.random() < 0.12:
+                vs[rng.randrange(len(vs))] = self.scalar_operand()
+        return ['obs', vs, self.mask()]
+
+    def fault(self, kind=None):
+        rng = self.rng
+        kind = kind or rng.choice(H_FAULTS)
+        step = ['fault', kind, self.vars_(rng.choice([1, 2, 3]), 'obj'), rng.choice([1, 2, 3, 4, 6])]
+        arrs = [i for i in range(self.nvars) if self.kinds.get(i) in ('arr', 'rows', 'strs')]
+        if arrs and rng.random() < 0.3:
+            step.append(rng.choice(arrs))       # the failing call works on a persisting array variable (a later retry sees the same array)
+        return step
+
+    def motif(self, first):
+        rng = self.rng
+        r = rng.random()
+        if r < (0.55 if first else 0.2):
+            f = self.fault()
+            steps = [f]
+            if len(f) > 4 and rng.random() < 0.7:
+                # the failing call worked on a persisting array: try again on the SAME array with a good compare function / none
+                if self.kinds.get(f[4]) == 'rows' and rng.random() < 0.6:
+                    steps.append(['dsortvar', f[4], [[k] for k in rng.sample(H_KEYS, 2)]])
+                else:
+                    steps.append(['sortvar', f[4]] + ([rng.choice(sorted(H_OKFNS))] if rng.random() < 0.7 else []))
+            return steps
+        r = rng.random()
+        if r < 0.16:
+            # observe - mutate an operand - the SAME observation again, for the consumers that are steps of their own
+            kind = rng.choice(['dsort', 'dsort', 'dsortvar', 'dsortvar', 'sortvar', 'sortvar', 'rsort'])
+            sorts = [[k] + ([rng.random() < 0.5] if rng.random() < 0.7 else []) for k in rng.sample(H_KEYS, rng.choice([1, 2, 2]))]
+            if kind == 'dsort':
+                x = ['dsort', self.vars_(rng.choice([2, 3, 4]), 'obj'), sorts]
+                targets = x[1]
+            elif kind == 'dsortvar':
+                x = ['dsortvar', self.vars_(1, 'rows')[0], sorts]
+                targets = [x[1]]
+            elif kind == 'sortvar':
+                x = ['sortvar', self.vars_(1, 'arr')[0]] + ([rng.choice(sorted(H_OKFNS))] if rng.random() < 0.4 else [])
+                targets = [x[1]]
+            else:
+                x = ['rsort', self.vars_(rng.choice([2, 3, 4])), rng.choice(sorted(H_OKFNS))]
+                targets = x[1]
+            steps = [x]
+            for _ in range(rng.choice([1, 1, 2])):
+                steps.append(self.mutate(rng.choice(targets)))
+            steps.append(list(x))
+            return steps
+        if r < 0.24:
+            # the same, for a search in a persisting array variable: search, change the array or the needle, search again
+            x = rng.randrange(self.nvars) if rng.random() < 0.5 else self.scalar_operand()
+            arr = self.vars_(1, 'strs' if isinstance(x, list) else 'arr')[0]
+            steps = [['idxin', arr, x]]
+            for _ in range(rng.choice([1, 1, 2])):
+                steps.append(self.mutate(arr if isinstance(x, list) else rng.choice([arr, arr, x])))
+            steps.append(['idxin', arr, x])
+            return steps
+        if r < 0.5:
+            o = self.obs()
+            steps = [o]
+            for _ in range(rng.choice([1, 1, 2])):
+                steps.append(self.mutate(rng.choice([i for i in o[1] if not isinstance(i, list)] or [0])))
+            steps.append(['obs', list(o[1]), self.mask()])
+            return steps
+        if r < 0.56:
+            return [self.obs()]
+        if r < 0.64:
+            return [self.mutate()]
+        if r < 0.68:
+            return [['rsort', self.vars_(rng.choice([2, 3, 4])), rng.choice(sorted(H_OKFNS))]]
+        if r < 0.74:
+            return [['dsort', self.vars_(rng.choice([2, 3, 4]), 'obj'), [[k] + ([rng.random() < 0.5] if rng.random() < 0.7 else []) for k in rng.sample(H_KEYS, rng.choice([1, 2]))]]]
+        if r < 0.77:
+            return [['sortvar', self.vars_(1, 'arr')[0]] + ([rng.choice(sorted(H_OKFNS))] if rng.random() < 0.5 else [])]
+        if r < 0.8:
+            return [['dsortvar', self.vars_(1, 'rows')[0], [[k] + ([rng.random() < 0.5] if rng.random() < 0.7 else []) for k in rng.sample(H_KEYS, rng.choice([1, 2]))]]]
+        if r < 0.86:
+            return [['idxin', self.vars_(1, 'arr')[0], rng.randrange(self.nvars) if rng.random() < 0.6 else self.scalar_operand()]]
+        if r < 0.93:
+            i = self.vars_(1, 'obj')[0]
+            mut = ['set', i, rng.choice(H_KEYS), self.const(h_value(rng, 'sc', self.hostish, 0))] if self.kinds.get(i, 'obj') == 'obj' \
+                else ['aset', i, 0, self.const(h_value(rng, 'sc', self.hostish, 0))]
+            return [['isort', mut, ['obs', [i, rng.randrange(self.nvars)], self.mask(0) & 15 or 3]]]
+        return [self.new(rng.randrange(self.nvars))]
+
+    def history(self):
+        rng = self.rng
+        runs = []
+        nruns = rng.choice([1, 1, 2, 2, 3])
+        first = True
+        for r in range(nruns):
+            steps = []
+            if r == 0:
+                prev = None
+                for i in range(self.nvars):
+                    st = self.new(i, prev if i == 1 else None)      # v1 often starts as an equal copy of v0
+                    steps.append(st)
+                    prev = st
+            run = {'mode': rng.choice(['script', 'script', 'expr']), 'options': rng.choice(['reuse', 'reuse', 'fresh']), 'maxs': MAXS,
+                   'builtins': rng.random() < 0.7, 'tz': rng.choice(self.zones) if self.zones and rng.random() < 0.08 else None}
+            if r > 0 or rng.random() < 0.5:
+                if rng.random() < 0.12:
+                    # a run that is aborted by the statement limit somewhere inside a sort with a script compare function
+                    run['mode'] = 'script'
+                    run['maxs'] = len(steps) + rng.choice([3, 8, 15, 30, 60])
+                    steps.append(self.obs())
+                    steps.append(self.fault(rng.choice(['slow', 'nestedfault', 'sloppy'])))
+                    steps.append(self.obs())
+                    run['steps'] = steps
+                    runs.append(run)
+                    first = False
+                    continue
+            for _ in range(rng.choice([2, 3, 4, 5, 6])):
+                steps.extend(self.motif(first))
+                first = False
+            run['steps'] = steps
+            runs.append(run)
+        return {'consts': self.consts, 'runs': runs}
+
+
+def directed_histories():
+    """Every fault kind x {same run, next run} x {script, expr} x {reused, fresh options}: equal objects o, p; the fault with o, p inside the
+    failing call; observe; mutate o; observe again; make o equal to a third object; observe; mutate p; observe; only then a successful sort."""
+    out = []
+    consts = [spec({'a': 1, 'b': 5}), spec(2), spec({'a': 2, 'b': 5}), spec(9), spec([1, {'a': 1}]), spec(7),
+              spec(['a', 'b', 1, 'a', 2, 1]), spec('a'), spec('b'), spec([{'a': 2, 'b': 1}, {'a': 1, 'b': 2}, 1, {'a': 1, 'b': 1}]), spec(1)]
+    for kind in H_FAULTS:
+        for variant in range(8):
+            mode = 'script' if variant & 1 == 0 else 'expr'
+            split = bool(variant & 2)
+            options = 'reuse' if variant & 4 == 0 else 'fresh'
+            if kind == 'slow' and not (mode == 'script'):
+                continue
+            setup = [['new', 0, 0, 'lit'], ['new', 1, 0, 'val'], ['new', 3, 4, 'val']]
+            fault = [['fault', kind, [0, 1, 3], 2 + variant % 3]]
+            rest = [['obs', [0, 1], 15], ['set', 0, 'a', 1], ['obs', [0, 1], 15], ['new', 2, 2, 'json'], ['obs', [0, 2], 15], ['set', 1, 'a', 3],
+                    ['obs', [0, 1], 15], ['obs', [1, 2, 0], 15], ['aset', 3, 0, 5], ['idxin', 3, 0], ['obs', [3, 3], 7], ['pushv', 3, 0],
+                    ['pushv', 3, 1], ['set', 1, 'c', 5], ['idxin', 3, 1], ['obs', [2, 1, 0], 31],
+                    # a persisting array of scalars: search, overwrite in place (same length), search again; sort it with a failing compare
+                    # function, then again with a good one and with none
+                    ['new', 4, 6, 'val'], ['idxin', 4, ['c', 7]], ['idxin', 4, ['c', 10]], ['aset', 4, 0, 8], ['idxin', 4, ['c', 7]], ['idxin', 4, ['c', 8]],
+                    ['aset', 4, 2, 8], ['idxin', 4, ['c', 10]], ['obs', [['c', 7], ['c', 8]], 15], ['fault', kind, [0, 1], 2, 4], ['sortvar', 4, 'c11rev'],
+                    ['sortvar', 4, 'c11hostobj'], ['sortvar', 4], ['idxin', 4, ['c', 7]],
+                    # a persisting array of rows with a non-object row: dataSort fails; remove the row; dataSort again
+                    ['new', 5, 9, 'val'], ['dsortvar', 5, [['a'], ['b', True]]], ['fault', 'dsrow', [0], 1, 5], ['aset', 5, 2, 0], ['dsortvar', 5, [['a'], ['b', True]]],
+                    ['setin', 5, 0, 'a', 3], ['dsortvar', 5, [['a'], ['b', True]]], ['setin', 5, 2, 'b', 3], ['dsortvar', 5, [['a'], ['b', True]]],
+                    ['dsort', [0, 1, 2], [['a'], ['b']]], ['set', 0, 'a', 5], ['dsort', [0, 1, 2], [['a'], ['b']]], ['set', 2, 'b', 10], ['dsort', [0, 1, 2], [['a'], ['b']]],
+                    ['fault', kind, [0, 1], 2, 5], ['dsortvar', 5, [['b'], ['a']]], ['sortvar', 5], ['sortvar', 5, 'c11fwd']]
+            run = {'mode': mode, 'options': options, 'maxs': MAXS, 'builtins': True, 'tz': None}
+            if kind == 'slow':
+                runs = [dict(run, steps=setup + [['obs', [0, 1], 15]] + fault, maxs=12 + variant), dict(run, steps=rest)]
+            elif split:
+                runs = [dict(run, steps=setup + [['obs', [0, 1], 3]] + fault), dict(run, steps=rest)]
+            else:
+                runs = [dict(run, steps=setup + [['obs', [0, 1], 3]] + fault + rest)]
+            out.append({'consts': consts, 'runs': runs})
+    return out
+
+
+def history_fails(hist):
+    """Run one history on the working tree; True if an observation contradicts the reference comparison."""
+    failures, _m, _s = HistoryRunner(Impl()).run(hist)
+    return bool(failures)
+
+
+_H_WORKER = r'''
+import json, os, select, signal, sys
+sys.path.insert(0, sys.argv[1])
+import fw, extract
+extract._CACHE['mods'] = extract.fresh_import()
+from props import C11
+
+
+def isolated(h):
+    # run one history in a fork of this pristine state
+    r, w = os.pipe()
+    pid = os.fork()
+    if pid == 0:
+        code = b'!'
+        try:
+            os.close(r)
+            code = b'1' if C11.history_fails(h) else b'0'
+        except BaseException:
+            code = b'!'
+        finally:
+            os.write(w, code)
+            os._exit(0)
+    os.close(w)
+    ready, _, _ = select.select([r], [], [], 30)
+    data = os.read(r, 1) if ready else b''
+    if not ready:
+        os.kill(pid, signal.SIGKILL)
+    os.waitpid(pid, 0)
+    os.close(r)
+    return {b'1': True, b'0': False}.get(data)
+
+
+req = json.load(sys.stdin)
+if req['cmd'] == 'eval':
+    json.dump([isolated(h) for h in req['hists']], sys.stdout)
+else:
+    h = req['hist']
+    budget = 400
+    changed = True
+    while changed and budget > 0:
+        changed = False
+        for k in C11.h_deletion_keys(h):
+            c = C11.h_remove(h, [tuple(k)])
+            budget -= 1
+            if c['runs'] and isolated(c):
+                h = c
+                changed = True
+                break
+            if budget <= 0:
+                break
+    json.dump(h, sys.stdout)
+'''
+
+
+def _h_worker(req, timeout):
+    env = dict(os.environ)
+    env.setdefault('BARE_SCRIPT_PY_VERIF', '1')
+    try:
+        res = subprocess.run([sys.executable, '-c', _H_WORKER, os.path.join(fw.VERIF, 'harness')], input=json.dumps(req), capture_output=True,
+                             text=True, timeout=timeout, check=False, env=env)
+    except subprocess.TimeoutExpired:
+        return None
+    if res.returncode != 0:
+        return None
+    try:
+        return json.loads(res.stdout)
+    except ValueError:
+        return None
+
+
+def fresh_history_fails(hists, timeout=300):
+    """Each history in its OWN fresh interpreter state (a fresh process imports the working tree once, every history then runs in a fork
+    of that pristine state) -> [True (fails) | False | None (crashed / timed out)]"""
+    if not hists:
+        return []
+    out = _h_worker({'cmd': 'eval', 'hists': hists}, timeout)
+    return out if isinstance(out, list) and len(out) == len(hists) else [None] * len(hists)
+
+
+def h_remove(hist, keys):
+    """the history without the runs ('run', r) / steps (r, s) named in keys"""
+    keys = set(keys)
+    runs = []
+    for r, run in enumerate(hist['runs']):
+        if ('run', r) in keys:
+            continue
+        steps = [st for s, st in enumerate(run['steps']) if (r, s) not in keys]
+        if steps:
+            runs.append(dict(run, steps=steps))
+    return dict(hist, runs=runs)
+
+
+def h_deletion_keys(hist):
+    """one run or one step (coarse first, late steps first)"""
+    keys = []
+    if len(hist['runs']) > 1:
+        keys.extend(('run', r) for r in range(len(hist['runs'])))
+    for r, run in enumerate(hist['runs']):
+        keys.extend((r, s) for s in range(len(run['steps']) - 1, -1, -1))
+    return keys
+
+
+def h_shrink(hist, timeout=300):
+    """Greedy one-removal shrinking (runs, then steps, restarted after every success); every candidate is judged in a fresh interpreter
+    state (a fork of a pristine process), never in this, possibly polluted, process."""
+    out = _h_worker({'cmd': 'shrink', 'hist': hist}, timeout)
+    return out if isinstance(out, dict) and out.get('runs') else hist
+
+
+def history_stream(ctx, im, budget=None, stop_at_first=False, rng_name='history'):
+    st = ctx.stream('history', 'histories in ONE process over ONE globals object: variables holding objects / arrays (nested, shared, host subclasses) are '
+                               'observed (snapshot + systemCompare both ways, the six operators, arrayIndexOf / arrayLastIndexOf, mathMin / mathMax, '
+                               'arraySort, a random subset each time), mutated (objectSet / objectDelete / arraySet / arrayPush / arrayPop, also from inside a '
+                               'compare function during a sort) and observed again, around library calls that FAIL half-way and let the script continue: '
+                               'arraySort whose compare function returns null for equal elements / a string / raises / raises at the k-th call / has the '
+                               'wrong signature / aborts the run (BareScriptRuntimeError, statement limit), sorts and comparisons of arrays nested beyond '
+                               'the recursion limit, NaN inside a sort, dataSort over non-object rows / malformed sort lists, argument errors, nested sorts; '
+                               'spread over 1-3 runs (execute_script of a whole text, or statement by statement through evaluate_expression with and without '
+                               'builtins) on re-used or fresh options, with an occasional TZ switch. Oracle: every observation equals the reference '
+                               'comparison of the snapshots (current values only); model: every observation is also sent to the Lean model (the model '
+                               'has no history - that is the point). The failing calls themselves are host-only. non-trivial = the history has a '
+                               'fault before an observation')
+    runner = HistoryRunner(im)
+    rng = ctx.rng(rng_name)
+    zones = [z for z in H_ZONES if os.path.exists(os.path.join('/usr/share/zoneinfo', z))]
+    hists = []
+    for c in load_corpus():
+        if c.get('kind') == 'history':
+            hists.append(('corpus', c['history']))
+    hists.extend(('directed', h) for h in directed_histories())
+    nrand = budget if budget is not None else ctx.scale(1200, 30000)
+    for k in range(nrand):
+        hists.append(('random', HGen(rng, hostish=(k % 4 == 3), zones=zones).history()))
+    mcases = []
+    mcap = ctx.scale(25000, 150000)     # observations sent to the model (the reference oracle runs on all of them)
+    failed = []
+    recent = []
+    totals = {'records': 0, 'aborted': 0, 'steps': 0}
+    for origin, hist in hists:
+        failures, mc, stats = runner.run(hist)
+        for k in totals:
+            totals[k] += stats[k]
+        kinds = [s[1] for run in hist['runs'] for s in run['steps'] if s[0] == 'fault']
+        st.case(hist, nontrivial=bool(kinds) and stats['records'] > 0,
+                tags=[origin, f'runs{len(hist["runs"])}'] + [f'fault:{k}' for k in kinds] + [f'mode:{run["mode"]}/{run["options"]}' for run in hist['runs']])
+        st.evaluations += stats['records']
+        if failures:
+            failed.append((hist, failures, list(recent)))
+            if stop_at_first or len(failed) >= 40:
+                break
+        elif len(mcases) < mcap:
+            mcases.extend(mc)
+        recent = (recent + [hist])[-3:]
+    st.hist['observations'] = totals['records']
+    st.hist['aborted-runs-or-steps'] = totals['aborted']
+    ctx.notes.append(f'history: {len(hists)} histories ({sum(1 for o, _ in hists if o == "directed")} directed, {nrand} random), {totals["steps"]} steps, '
+                     f'{totals["records"]} observations, {totals["aborted"]} aborted runs/steps, {len(mcases)} observations compared with the model')
+    # the model on the observations of the clean histories
+    if mcases and ctx.driver is not None:
+        resps = ctx.driver.batch([m[2] for m in mcases])
+        for (case, got, _req, pick), resp in zip(mcases, resps):
+            ctx.compare('history', case, got, pick(resp))
+    # failures -> witnesses (the first one is re-established and shrunk in fresh interpreter states)
+    for n, (hist, failures, before) in enumerate(failed):
+        f = failures[0]
+        note = 'as found'
+        if n == 0:
+            cands = [hist] + [h_concat(before[-k:] + [hist]) for k in range(1, len(before) + 1)]
+            verdicts = fresh_history_fails(cands)
+            pick = next((c for c, v in zip(cands, verdicts) if v), None)
+            if pick is not None:
+                hist = h_shrink(pick)
+                ff, _m, _s = HistoryRunner(Impl()).run(hist)
+                f = ff[0] if ff else f
+                note = 'fails in a fresh interpreter; shrunk'
+            else:
+                note = 'failed in the check process; not reproduced in a fresh interpreter (state left by earlier histories of the stream?)'
+        ctx.witness('history', {'oracle': 'history', 'history': hist, 'tz': os.environ.get('TZ', ''), 'note': note, 'failed': shorten_failure(f)},
+                    f.get('expected'), f.get('actual'))
+    return bool(failed)
+
+
+def shorten_failure(f):
+    return {k: f.get(k) for k in ('run', 'step', 'field', 'operands')}
+
+
+def h_concat(hists):
+    """several histories one after the other as one history (constants renumbered)"""
+    consts, runs = [], []
+    for h in hists:
+        off = len(consts)
+        consts.extend(h['consts'])
+        for run in h['runs']:
+            runs.append(dict(run, steps=[h_shift(s, off) for s in run['steps']]))
+    return {'consts': consts, 'runs': runs}
+
+
+def h_shift(step, off):
+    k = step[0]
+    if k == 'new':
+        return [k, step[1], step[2] + off, step[3]]
+    if k in ('set', 'aset'):
+        return [k, step[1], step[2], step[3] + off]
+    if k == 'push':
+        return [k, step[1], step[2] + off]
+    if k == 'setin':
+        return [k, step[1], step[2], step[3], step[4] + off]
+    if k == 'isort':
+        return [k] + [h_shift(s, off) for s in step[1:]]
+    return step
+
+
+ORACLES.update({'dataSort-ref': o_data_sort_ref, 'arraySort-ref': o_sort_ref, 'host-base-equivalence': o_host_base})
+
+
+# ---------------------------------------------------------------------------------------------------------------------
 # search / replay
 # ---------------------------------------------------------------------------------------------------------------------
 
@@ -1001,6 +2480,8 @@ def search(ctx):
     triples of a sub-pool), then every consumer oracle on tie-rich inputs."""
     im = Impl()
     rng = ctx.rng('search')
+    if history_stream(ctx, im, budget=ctx.scale(2500, 20000), stop_at_first=True, rng_name='history-search'):
+        return
     pool = build_pool(rng, ctx.scale(260, 500))
     n = len(pool)
     impl = [[im.cmp(a, b) for b in pool] for a in pool]
@@ -1044,6 +2525,8 @@ def replay(witness):
             time.tzset()
         if inp['oracle'] == 'script-relops':
             return im.script(inp['text'], {}) != witness['expected']
+        if inp['oracle'] == 'history':
+            return bool(HistoryRunner(im).run(inp['history'])[0])
         args = [unspec_arg(a) for a in inp['args']]
         try:
             return ORACLES[inp['oracle']](im, *args) is not None
